@@ -139,6 +139,16 @@ CHECKS = {
         "Trusted: analytic cosines, numpy. Bounds on N ranges and the finite query alphabet.",
         "DESIGN.md §4 C15",
     ),
+    "C16": (
+        "bounded exhaustive exploration: every metric function x D x N x C x L x (basis x basis) pair lattice x all band limits and all band partitions; explicit spectral-sum oracles",
+        "All functions of exponax.metrics are evaluated on the (basis x basis) pair lattice with O(1) amplitudes (polarisation decides the quadratic MSE-type "
+        "forms for all states), ternary and superposition states, C in {1,2,3}, D=1..3, odd/even N and three domain extents, and compared with explicit sums "
+        "over the full complex spectrum: values, Parseval (spatial vs Fourier L2 family), resolution independence, L^D scaling, zero/positivity/symmetry/"
+        "homogeneity axioms, channel additivity, H1 = plain + gradient aggregate, correlation range/value/+-1, mean_metric. Band-limited variants are "
+        "checked for ALL pairs 0<=low<=high<=N//2 and ALL 2^(N//2) partitions of the band range into consecutive bands.",
+        "Trusted: numpy FFT sums. Pair lattice thinned on the largest grids (stated in notes). Normalised variants with a vanishing reference (0/0) are outside the property and masked.",
+        "DESIGN.md §4 C16",
+    ),
     "C17": (
         "bounded exhaustive exploration: every wavevector of every grid as a single-mode field x options; all basis pairs for the quadratic power spectrum",
         "get_spectrum is run on a*cos(k.x+phase) for every wavevector of the grid (all sign combinations, corners outside the Nyquist sphere, DC, "
